@@ -588,6 +588,11 @@ pub unsafe extern "C" fn haystack_value_is_time(val: *const Value) -> bool {
 /// Construct a [Date](crate::val::Date) [Value](crate::val::Value)
 #[no_mangle]
 pub extern "C" fn haystack_value_make_date(year: i32, month: u32, day: u32) -> Option<Box<Value>> {
+    // The year getter returns an unsigned value: a year before 0 could not be read back.
+    if year < 0 {
+        new_error("Invalid date: the year can't be negative");
+        return None;
+    }
     match Date::from_ymd(year, month, day) {
         Ok(date) => Some(Box::new(Value::Date(date))),
         Err(err) => {
